@@ -22,8 +22,14 @@ CONFIG = {
     "quick": {"flavours": ["real", "complex"], "shards": 8, "examples": 500, "min_nontrivial": 200, "budget_s": 120},
     "thorough": {"flavours": ["real", "complex"], "shards": 16, "examples": 2500, "min_nontrivial": 5000, "budget_s": 3000},
 }
-REQUIRED_CLASSES = {"quick": ["spin-major", "heterogeneous-spins", "label-order!=insertion", "physics", "relabelled", "chi-container", ">=4-orbitals", ">=4-spins"],
-                    "thorough": ["spin-major", "heterogeneous-spins", "label-order!=insertion", "physics", "relabelled", "chi-container", ">=4-orbitals", ">=4-spins"]}
+REQUIRED_CLASSES = {"quick": ["spin-major", "heterogeneous-spins", "label-order!=insertion", "physics", "relabelled", "chi-container", ">=4-orbitals", ">=4-spins", "labels-sharing-low-hash-bits"],
+                    "thorough": ["spin-major", "heterogeneous-spins", "label-order!=insertion", "physics", "relabelled", "chi-container", ">=4-orbitals", ">=4-spins", "labels-sharing-low-hash-bits"]}
+
+
+PARTIAL_HASH_PAIRS = [("s3415", "s4946"), ("site_606", "site_2715"), ("A1206", "A2456"),                       # low 24 bits
+                      ("s69667", "s88399"), ("site_116169", "site_132444"), ("A26389", "A31378"), ("A47554", "A133137"),   # low 32 bits
+                      ("s173516", "s1248982"), ("site_579003", "site_696460"), ("A1154913", "A2012987")]                 # low 40 bits
+_PH = {x for p in PARTIAL_HASH_PAIRS for x in p}
 
 
 @st.composite
@@ -37,6 +43,15 @@ def strategy_(draw, tier):
         sites = draw(gen.sites_st(max_modes=12, max_sites=5))
     else:
         sites = draw(gen.sites_st(max_modes=pm, max_sites=4))
+    if len(sites) >= 2 and draw(st.integers(0, 5)) == 0:
+        # two site labels whose boost::hash<std::string> values (Boost 1.83 of this image, 64 bit) agree in the low 24, 32 or 40 bits:
+        # the index map is keyed by the label hash, so any narrowing / folding of that key merges the two sites
+        a, b = draw(st.sampled_from(PARTIAL_HASH_PAIRS))
+        if draw(st.booleans()):
+            a, b = b, a
+        taken = {s[0] for s in sites[2:]}
+        if a not in taken and b not in taken:
+            sites = [[a] + list(sites[0][1:]), [b] + list(sites[1][1:])] + [list(s) for s in sites[2:]]
     mode = draw(st.integers(0, 1))
     labs = [s[0] for s in sites]
     bogus = draw(st.lists(st.tuples(st.sampled_from(labs + ["nope", "A "]), st.integers(0, 10), st.integers(0, 7)), min_size=1, max_size=4))
@@ -120,6 +135,8 @@ def execute(case, ctx):
     if any(s_[2] >= 4 for s_ in sites):
         classes.append(">=4-spins")
     labs = [s[0] for s in sites]
+    if any((a in labs and b in labs) for a, b in PARTIAL_HASH_PAIRS):
+        classes.append("labels-sharing-low-hash-bits")
     if labs != sorted(labs, key=lambda x: x.encode()):
         classes.append("label-order!=insertion")
     if case["mode"] == 1 or case.get("mode2") == 1:
